@@ -159,6 +159,36 @@ class ExtModule:
         self.name = name
 
 
+class LabelIndex:
+    """pandas.Index over a list of labels: position lookup (get_indexer returns -1 for a missing label, get_loc raises)"""
+    def __init__(self, labels, interp):
+        self.labels, self.interp = list(labels), interp
+        self.tainted = isinstance(labels, ItemList)
+
+    def _pos(self, x):
+        for i, y in enumerate(self.labels):
+            if y is x or self.interp.py_eq(y, x):
+                return TInt(i) if self.tainted else i
+        return None
+
+    def get_indexer(self, target, **k):
+        out = []
+        for x in self.interp.iterate(target):
+            p = self._pos(x)
+            out.append(p if p is not None else -1)
+        return NP.IdxArr(out)
+
+    def get_loc(self, x):
+        p = self._pos(x)
+        if p is None:
+            raise PyRaise("KeyError", None, repr(x))
+        return p
+
+    def isin(self, values):
+        vals = self.interp.iterate(values)
+        return NP.IdxArr([any(y is x or self.interp.py_eq(y, x) for x in vals) for y in self.labels])
+
+
 class PyModel:
     """base class of hand-written models of library objects (an abstract data frame, a file content ...):
     attribute access and calls go straight to the python object"""
@@ -576,6 +606,10 @@ class Interp:
             raise PyRaise("AttributeError", node, f"'{type(v).__name__}' object has no attribute '{name}'")
         if v is None:
             raise PyRaise("AttributeError", node, f"'NoneType' object has no attribute '{name}'")
+        if isinstance(v, LabelIndex):
+            if name in ("get_indexer", "get_loc", "isin"):
+                return getattr(v, name)
+            raise AnalysisAbort(f"pandas.Index.{name} is not modelled")
         if isinstance(v, (NP.IdxArr, Mesh)):
             if name in ("shape", "ndim"):
                 return getattr(v, name)
@@ -1713,6 +1747,8 @@ class Interp:
     def call_ext(self, f: ExtModule, args, kwargs, node):
         if f.name in self.hooks:
             return self.hooks[f.name](*args, **kwargs)
+        if f.name == "pandas.Index" and args and isinstance(args[0], (list, tuple)):
+            return LabelIndex(args[0], self)
         raise AnalysisAbort(f"call of external {f.name} is not modelled (line {getattr(node, 'lineno', '?')})")
 
     def e_Lambda(self, n, fr):
